@@ -21,7 +21,7 @@ Inductive case :=
 | CDH (g p : Z) (pp pq : bool) (obs : Z)            (* pp = ProbablyPrime(p), pq = ProbablyPrime((p-1)/2) *)
 | CDP (p : Z) (items : list ((Z * Z) * (Z * Z) * (Z * Z) * Z))   (* g, g_a, g_b, code *)
 | CIR (x lo hi : Z) (obs : bool)
-| CPQ (pq : Z) (rnd : list Z) (obs : Z * Z * Z).    (* (0,p,q) | (1,0,0) error | (2,0,0) panic *)
+| CPQ (pq : Z) (isp : bool) (rnd : list Z) (obs : Z * Z * Z).   (* isp = pq.ProbablyPrime(0); (0,p,q) | (1,0,0) error | (2,0,0) panic *)
 
 Definition pq_rounds : nat := 40.
 Definition pq_fuel : nat := Z.to_nat 300000.
@@ -37,11 +37,12 @@ Definition ok (c : case) : bool :=
       forallb (fun it => let '(g, ga, gb, obs) := it in
                          check_dh_params p (rel p g) (rel p ga) (rel p gb) =? obs) items
   | CIR x lo hi obs => Bool.eqb (in_range x lo hi) obs
-  | CPQ pq rnd obs =>
+  | CPQ pq isp rnd obs =>
       let '(k, p, q) := obs in
-      match decompose_pq pq_rounds pq_fuel pq rnd with
+      match decompose_pq isp pq_rounds pq_fuel pq rnd with
       | Ok (p', q') => (k =? 0) && (p =? p') && (q =? q')
       | Err ERand => k =? 1
+      | Err EReject => k =? 1
       | Err EFuel => false
       | Panic => k =? 2
       end
